@@ -194,4 +194,66 @@ theorem partLoop_ok {K : Type} (z : K) (permR : Array Int) (movnum : Bool) (xlu 
       simp only [lt_irrefl, if_false]
       exact ⟨le_refl _, le_refl _, rfl, rfl, fun k h1 h2 => by omega, fun k h1 h2 => by omega,
         ⟨Equiv.refl _, fun _ _ => rfl, fun k h1 h2 => by omega, fun _ => rfl, fun _ k h1 h2 => by omega⟩, fun _ => rfl, fun _ _ => rfl⟩
+
+/-- more fuel changes nothing: with `hi - lo ≤ f` the loop stops through `kmin <= kmax` failing -/
+theorem partLoop_fuel {K : Type} (z : K) (permR : Array Int) (movnum : Bool) (xlu xl : Nat) :
+    ∀ (f lo hi : Nat) (ls : Array Nat) (lu : Array K), hi - lo ≤ f →
+      partLoop z permR movnum xlu xl (f+1) lo hi ls lu = partLoop z permR movnum xlu xl f lo hi ls lu := by
+  intro f
+  induction f with
+  | zero =>
+    intro lo hi ls lu hf
+    have : ¬ lo < hi := by omega
+    simp [partLoop, this]
+  | succ f ih =>
+    intro lo hi ls lu hf
+    conv_lhs => rw [partLoop]
+    conv_rhs => rw [partLoop]
+    by_cases hlt : lo < hi
+    · simp only [hlt, if_true]
+      rw [ih lo (hi-1) ls lu (by omega), ih (lo+1) hi ls lu (by omega), ih (lo+1) (hi-1) _ _ (by omega)]
+    · simp [hlt]
+
+theorem partLoop_fuel_add {K : Type} (z : K) (permR : Array Int) (movnum : Bool) (xlu xl : Nat)
+    (f g lo hi : Nat) (ls : Array Nat) (lu : Array K) (h : hi - lo ≤ f) :
+    partLoop z permR movnum xlu xl (f+g) lo hi ls lu = partLoop z permR movnum xlu xl f lo hi ls lu := by
+  induction g with
+  | zero => rfl
+  | succ g ih => rw [← Nat.add_assoc, partLoop_fuel _ _ _ _ _ _ _ _ _ _ (by omega), ih]
+
+/-- a leading run of pivoted rows (the diagonal block) is left where it is, values included -/
+theorem partLoop_lead {K : Type} (z : K) (permR : Array Int) (movnum : Bool) (xlu xl : Nat) :
+    ∀ (f lo hi : Nat) (ls : Array Nat) (lu : Array K) (e : Nat), hi - lo ≤ f → xl ≤ lo → lo ≤ hi → hi ≤ ls.size →
+      (movnum = true → xlu + (hi - xl) ≤ lu.size) →
+      (∀ k, lo ≤ k → k < e → pivoted permR (ls.getD k 0) = true) →
+      ∀ k, k < e →
+        (partLoop z permR movnum xlu xl f lo hi ls lu).2.1.getD k 0 = ls.getD k 0 ∧
+        (xl ≤ k → (partLoop z permR movnum xlu xl f lo hi ls lu).2.2.getD (xlu + (k - xl)) z = lu.getD (xlu + (k - xl)) z) := by
+  intro f
+  induction f with
+  | zero => intro lo hi ls lu e _ _ _ _ _ _ k _; simp [partLoop]
+  | succ f ih =>
+    intro lo hi ls lu e hf hxl hle hsz hlu hlead k hk
+    have hok := partLoop_ok z permR movnum xlu xl (f+1) lo hi ls lu hf hxl hle hsz hlu
+    by_cases hklo : k < lo
+    · obtain ⟨σ, s1, _, s3, _⟩ := hok.perm
+      exact ⟨by rw [s3, s1 k (Or.inl hklo)], fun hx => hok.lu_frame _ (Or.inl (by omega))⟩
+    · rw [partLoop]
+      by_cases hlt : lo < hi
+      · simp only [hlt, if_true]
+        by_cases hA : pivoted permR (ls.getD (hi-1) 0) = true
+        · simp only [hA, Bool.not_true, Bool.false_eq_true, if_false]
+          have hB : pivoted permR (ls.getD lo 0) = true := hlead lo (le_refl _) (by omega)
+          simp only [hB, if_true]
+          by_cases hk2 : k = lo
+          · subst hk2
+            have hok2 := partLoop_ok z permR movnum xlu xl f (k+1) hi ls lu (by omega) (by omega) (by omega) hsz hlu
+            obtain ⟨σ, s1, _, s3, _⟩ := hok2.perm
+            exact ⟨by rw [s3, s1 k (Or.inl (by omega))], fun hx => hok2.lu_frame _ (Or.inl (by omega))⟩
+          · exact ih (lo+1) hi ls lu e (by omega) (by omega) (by omega) hsz hlu
+              (fun k' h1 h2 => hlead k' (by omega) h2) k hk
+        · have hAf : pivoted permR (ls.getD (hi-1) 0) = false := by simpa using hA
+          simp only [hAf, Bool.not_false, if_true]
+          exact ih lo (hi-1) ls lu e (by omega) hxl (by omega) (by omega) (by intro hm; have := hlu hm; omega) hlead k hk
+      · simp [hlt]
 end Slu.SymbArr
